@@ -33,7 +33,7 @@ static struct {
     long opens, closes, reads;
     int fake_fd;
     uint8_t bytes[32];      /* what the OS "provides" on success */
-    int used[4];            /* which primitive was called: getrandom, getentropy, syscall, read */
+    long used[4];           /* which primitive was called: getrandom, getentropy, syscall, read (2^32+5 calls in the longest script) */
     sigjmp_buf spin;
     int spinning;
 } S;
